@@ -617,4 +617,62 @@ example :
       W.num? (W.rt3s.storage.getGlobal m.name) = some 2) :=
   ⟨by decide, by decide, W.rt3s.globalsMeta[0]'(by decide), List.getElem_mem _, by decide, by decide⟩
 
+/-! ## Initialiser expressions of program variables -/
+
+/-- **Initialiser expressions are evaluated over the storage the instance is created in.**
+`create_program_instance` gives a program variable declared `v : T := e` (`e` an expression over
+globals and typed literals) the value of `e` over the globals of the storage it is CALLED ON,
+coerced to `T`.  `Runtime::restart` calls it in its fourth loop (`recreatePrograms`) on the storage
+its third loop (`resetGlobals`) produced, and the build calls it after `apply_globals`: the
+"declared initial value" a warm or cold restart gives such a variable is `e` over the
+RE-INITIALISED globals (retained ones at their kept value), and a cold restart evaluates it over
+the same global values as a fresh build.  Proved for one instance creation; that every restart
+and every cold-vs-fresh pair agrees on such variables is checked by the correspondence run and the
+oracle (`warm-rule`, `cold-vars`, twin), not proved (`c09_cold_fresh_partial` is guarded to
+constant initialisers by `PlainInits`). -/
+theorem c09_expr_init_reads_creation_storage (fbs : List FbDef) (s s' : Storage) (p : ProgDef)
+    (id : Nat) (h : createProgramInstance fbs s p = .ok (s', id))
+    (hnd : (p.vars.map (·.name)).Nodup) (d : VarDef) (hd : d ∈ p.vars) (ty : Nat) (e : IExpr)
+    (hi : d.init = .expr ty e) (hc : e.closed = true) :
+    ∃ k, e.eval s 0 = some k ∧ s'.getInstVar id d.name = some (.num ty k) :=
+  createProgramInstance_expr fbs s s' p id h hnd d hd ty e hi hc
+
+/-- Non-vacuity: `limit : INT := setpoint * INT#2` created in a storage where `setpoint = 10`. -/
+example :
+    (match createProgramInstance [] { globals := [(0, .num 3 10)] }
+        { name := 5, vars := [{ name := 1, retain := .unspecified,
+                                init := .expr 3 (.mul (.glob 0) (.lit 2)) }], body := [] } with
+     | .ok (s', id) => (s'.getInstVar id 1).bind Val.numVal?
+     | .error _ => none) = some 20 := by decide
+
+/-! ## Restart requests through the resource thread (`scheduler.rs`) -/
+
+/-- **Histories through the scheduler: no restart request is lost.**  The control endpoint writes
+requests into the restart signal; the resource thread takes a request out of the slot and carries
+it out (`restart(mode)` + `load_retain_store()`) in ONE critical section.  For every interleaving of
+requests, polls and completions, once the thread has caught up nothing is pending, every restart
+carried out earlier stays carried out, and the restart carried out LAST is the one requested last
+— so the state after the history is the state `restart(last mode)` (+ load) produces, which is
+what the warm / cold clauses are about.  A request is only ever superseded by a LATER request that
+reached the slot before the thread took the earlier one. -/
+theorem c09_sched_no_request_lost (evs : List SigEv) :
+    let s := sigQuiesce (sigRun {} evs)
+    s.slot = none ∧ s.busy = none ∧ s.blocked = none ∧
+    s.done.head? = lastRequest evs none ∧
+    ∃ more, s.done = more ++ (sigRun {} evs).done := by
+  have w0 : ({} : SigSt).wf := ⟨fun _ => rfl, fun h => by cases h⟩
+  obtain ⟨w, n⟩ := sigRun_inv evs {} w0
+  obtain ⟨a, b, c, d, e⟩ := sigQuiesce_spec _ w
+  refine ⟨a, b, c, ?_, e⟩
+  rw [d, n]
+  rfl
+
+/-- The scripted tails of the correspondence run: a request that arrives while the previous one is
+being carried out (`during`) is carried out after it; of the requests queued before the thread
+starts only the last survives (kernel-evaluated instances of the transition system). -/
+theorem c09_sched_scripts :
+    schedExecuted [(.idle, .warm), (.during, .cold)] = [.warm, .cold] ∧
+    schedExecuted [(.pre, .warm), (.pre, .cold), (.during, .warm), (.during, .warm)] = [.cold, .warm, .warm] ∧
+    schedExecuted [(.pre, .cold), (.idle, .warm)] = [.cold, .warm] := by decide
+
 end TrustVerif.C09
